@@ -19,11 +19,15 @@ GEN_DEPTH = {
 
 MODULE_OF = {"MC_auth": "MC_auth.tla", "MC_noauth": "MC_auth.tla", "GEN_auth": "MC_auth.tla", "GEN_noauth": "MC_auth.tla",
              "MC_nonce": "Nonce.tla", "GEN_nonce": "Nonce.tla"}
+for _n in ("ltcred", "relaygenA", "relaygenTop", "relaygenOne", "relaygenWide"):
+    MODULE_OF["MC_" + _n] = MODULE_OF["GEN_" + _n] = "LtCred.tla" if _n == "ltcred" else "RelayGen.tla"
+    MC_DEPTH["MC_" + _n] = None
+    GEN_DEPTH["GEN_" + _n] = None
 MC_DEPTH.update({"MC_auth": (5, 7), "MC_noauth": (3, 4), "MC_nonce": None})
 GEN_DEPTH.update({"GEN_auth": (4, 5), "GEN_noauth": (2, 3), "GEN_nonce": None})
 
 
-NO_SIM = {"GEN_nonce", "GEN_noauth", "GEN_mtu", "GEN_mtu1200"}
+NO_SIM = {"GEN_nonce", "GEN_noauth", "GEN_mtu", "GEN_mtu1200", "GEN_ltcred", "GEN_relaygenOne", "GEN_relaygenTop"}
 
 
 def depth(table, name, t):
@@ -96,6 +100,17 @@ PROPS = {
     "C08": dict(title="channel bindings are a bijection inside 0x4000-0x7FFF", level="model_checking",
                 run=core_run(["MC_relay", "MC_relayB"], ["GEN_relayA", "GEN_relayB", "GEN_relayD"]),
                 assumptions=BASE_ASSUME),
+    "C17": dict(title="time-windowed credentials validate iff authentic and unexpired", level="model_checking",
+                run=core_run(["MC_ltcred"], ["GEN_ltcred"]),
+                assumptions=["HMAC-SHA1 / MD5 treated as uninterpreted injective functions (LtCred.tla)",
+                             "the handler compares whole seconds; the harness acts a few microseconds after each whole second",
+                             "every case is decided twice: by calling the handler directly and end-to-end by an Allocate through a real server in virtual time"]),
+    "C20": dict(title="relay address generators honour their configuration", level="model_checking",
+                run=core_run(["MC_relaygenA", "MC_relaygenTop", "MC_relaygenOne", "MC_relaygenWide"],
+                             ["GEN_relaygenA", "GEN_relaygenTop", "GEN_relaygenOne", "GEN_relaygenWide"]),
+                assumptions=["the generators run on the kernel's real loopback sockets (127.0.0.1 / ::1), ports 61100-61113 and 65534-65535, "
+                             "which must not be used by another process while the check runs",
+                             "the random source is scripted per draw by class (lowest / highest / middle / colliding port), whatever n the code asks for"]),
     "C19": dict(title="responses correlated, truthful, idempotent", level="model_checking",
                 run=core_run(["MC_time", "MC_iso"], ["GEN_time", "GEN_users", "GEN_iso", "GEN_v6", "GEN_v6strict"]),
                 assumptions=BASE_ASSUME),
